@@ -26,8 +26,6 @@ IniFile::IniFile(const String& fname, bool shouldwrite)
 			_lines << line;
 		if(!line.ok())
 			continue;
-		if(file.end())
-			break;
 
 		int i0 = 0;
 		while (myisspace(line[i0]) && line[i0] != '\0')
